@@ -79,7 +79,14 @@ class NumericArray(list):
     -------
     one of gfapy.NumericArray.SUBTYPE
     """
+    if len(self) == 0:
+      raise gfapy.ValueError("NumericArray is empty")
     if all([ isinstance(f, float) for f in self]):
+      for f in self:
+        if f != f or f in [float("inf"), -float("inf")]:
+          raise gfapy.ValueError(
+            "NumericArray contains non-finite values\n"+
+            "Content: {}".format(repr(self)))
       return "f"
     else:
       e_max = None
